@@ -267,6 +267,29 @@ func checkC18(reg *Registry, c ValCase) pbt.Result {
 			return pbt.Fail("%s: the same seed (%d, profile %d) produced different values: %s encodings differ: %s", c.Item, c.Seed, c.Profile, name, diffAt(encs[0][k], encs[1][k]))
 		}
 	}
+	// the same seed on an object that already held another value: the value depends on the seed, not on the object's past
+	{
+		obj := Create(it, c.Bytes)
+		if err := call("FillRandom", func() {
+			obj.FillRandom(NewGenerator(c.Seed^0x5bd1e995, (c.Profile+1)%5))
+			obj.FillRandom(NewGenerator(c.Seed, c.Profile))
+		}); err != nil {
+			return pbt.Fail("%s: FillRandom on a reused object: %v", c.Item, err)
+		}
+		reused := [3][]byte{}
+		if it.HasTL1() {
+			reused[0], _ = tl1(obj)
+		}
+		if it.HasTL2() {
+			reused[1], _ = tl2(obj, nil)
+		}
+		reused[2], _ = jsonOf(obj, JSONOpts{})
+		for k, name := range []string{"TL1", "TL2", "JSON"} {
+			if !eq(encs[0][k], reused[k]) {
+				return pbt.Fail("%s: seed %d (profile %d) fills an object that held another value differently from a fresh one: %s encodings differ: %s\n  fresh  %s\n  reused %s", c.Item, c.Seed, c.Profile, name, diffAt(encs[0][k], reused[k]), strHead(encs[0][2]), strHead(reused[2]))
+			}
+		}
+	}
 	cls := []string{}
 	if it.IsFunction() {
 		fn := it.CreateFunction()
